@@ -56,6 +56,42 @@ def normalize(raw):
     """mutates raw; returns a description of what was aligned"""
     pin = pinned()
     log = {"fields": {}, "params": {}, "fns": {}}
+    # ---- a whole private module renamed (file moved): every pinned item of module M is gone, and one module the
+    # pinned tree does not have holds items with the same names — all its paths are rewritten to M first
+    def _mod_of(p):
+        if p.startswith("<"):
+            return None
+        segs = p.split("::")
+        out = []
+        for x in segs[:-1]:
+            if x[:1].isupper() or x.startswith("<") or x.startswith("{"):
+                break
+            out.append(x)
+        return "::".join(out)
+    pin_items, cur_items = {}, {}
+    for p in list(pin["fns"]) + list(pin["adts"]) + list(pin.get("enums", [])):
+        m = _mod_of(p)
+        if m:
+            pin_items.setdefault(m, set()).add(p[len(m) + 2:].split("::")[0])
+    for p in [f["path"] for f in raw["fns"]] + [a_["path"] for a_ in raw["adts"] if not a_["path"].startswith(("std::", "core::", "alloc::"))]:
+        m = _mod_of(p)
+        if m:
+            cur_items.setdefault(m, set()).add(p[len(m) + 2:].split("::")[0])
+    mmap = {}
+    for m, items in pin_items.items():
+        if m in cur_items:
+            continue
+        cands = [n for n, its in cur_items.items() if n not in pin_items and _parent(n) == _parent(m) and len(items & its) * 5 >= len(items) * 4]
+        if len(cands) == 1:
+            mmap[cands[0]] = m
+    if mmap:
+        txt = json.dumps(raw)
+        for n in sorted(mmap, key=len, reverse=True):
+            txt = re.sub(r"(?<![A-Za-z0-9_:])" + re.escape(n) + "::", mmap[n] + "::", txt)
+        new = json.loads(txt)
+        raw.clear()
+        raw.update(new)
+        log["modules"] = dict(mmap)
     # ---- types moved to another module (`sorter::EntryBoundAlignedBuffer` -> `sorter::aligned_buffer::…`): the only
     # pinned type of that name that is missing, the only new type of that name, same kind and (for structs) same
     # fields — every path of the fact file is rewritten to the pinned one before anything else is compared
